@@ -150,4 +150,39 @@ def leftRegOnes (T : Table) : List (List (List Nat)) :=
   (List.range N).map fun g => (List.range N).map fun c =>
     (List.range N).filter fun r => leftRegEntry T g r c == 1
 
+/-! ### helpers of `group/_internal.py` around the tables (round 6) -/
+
+/-- `hf_Euler_totient(n)` (`_internal.py:273`): `sum(math.gcd(n,x)==1 for x in range(1, n+1))` -/
+def eulerTotient (n : Nat) : Nat := ((List.range' 1 n).filter fun x => Nat.gcd n x == 1).length
+
+/-- `_dummy_partition(length, hf0)` (`_internal.py:93-106`): one loop iteration per unit of `fuel`; state `(ind_start, ind_end)` -/
+def dummyAux (len : Nat) (p : Nat → Nat → Bool) : Nat → Nat → Nat → List (Nat × Nat)
+  | 0, _, _ => []
+  | fuel + 1, s, e =>
+    if s < len then
+      if e = len then [(s, e)]
+      else if p s e then dummyAux len p fuel s (e + 1)
+      else (s, e) :: dummyAux len p fuel e (e + 1)
+    else []
+
+/-- the slices `(start, stop)` returned by `_dummy_partition` (every iteration increases `ind_end`, so `length + 1` iterations suffice) -/
+def dummyPartition (len : Nat) (p : Nat → Nat → Bool) : List (Nat × Nat) := dummyAux len p (len + 1) 0 1
+
+/-- `np.nonzero(row)[0]` of a Boolean row -/
+def support (row : List Bool) : List Nat := (List.range row.length).filter fun i => row.getD i false
+
+/-- the de-duplication of equivalent blocks inside one dimension group of `reduce_group_representation` (`_internal.py:178-182`):
+`tmp3 = set(tuple(sorted(nonzero(x))) for x in overlap)`, `[tmp0[x[0]] for x in tmp3]` — the distinct supports of the rows of the Boolean
+overlap matrix, each represented by its first index (the `set` fixes no order: first-occurrence order here, compared as a set) -/
+def dedupGroup (E : List (List Bool)) : List Nat := ((E.map support).eraseDups).map fun sup => sup.headD 0
+
+/-- the selection over all dimension groups (`_internal.py:171-182`): `dims` are the block dimensions in the order the blocks were found,
+`E d` the overlap matrix of the blocks of dimension `d` (in that order).  `sorted(..., key=dim)` is stable and `groupby` then walks
+ascending dimensions; a group of one block is kept as it is.  Result: `(dimension, index inside its group)` of every returned block. -/
+def dedupAll (dims : List Nat) (E : Nat → List (List Bool)) : List (Nat × Nat) :=
+  let ds := (dims.mergeSort (· ≤ ·)).eraseDups
+  ds.flatMap fun d =>
+    let cnt := dims.count d
+    if cnt = 1 then [(d, 0)] else (dedupGroup (E d)).map fun i => (d, i)
+
 end Numqi.FinGroup
